@@ -86,7 +86,7 @@ def _evaluate(case):
 
 def run(ctx):
     if ctx.tier == "quick":
-        plan = [(["T:3"], [2, 2])] + explore.extra_stages("full")
+        plan = [(["T:3"], [2, 2])] + explore.extra_stages("t3")
     else:
         plan = [(["T:3"], [2, 2]), (["T:m0,5,5,9", "T:1", "T:u4"], [2, 2]), (["T:3"], [1, 1, 1])]
     ctx.rule = ("E1 BFS over programs (shared nodes, broadcast operands, partition selections above groups, partition-wise ops between "
